@@ -115,6 +115,7 @@ func (h *Handler) modifyResponse(r *http.Response) error {
 		log.Debug("No content encoding header found")
 	default:
 		h.log.Warn(unsupportedContentEncoding, slog.String("encoding", r.Header.Get("Content-Encoding")))
+		return nil
 	}
 
 	// Read the encoded body.
